@@ -4,6 +4,7 @@
   Property theorems only; proofs are one-liners calling CSD/Lemmas.
 -/
 import CSD.Lemmas.VByte
+import CSD.Lemmas.LogSeq
 
 namespace CSD.Props.C17
 open CSD
@@ -28,5 +29,51 @@ theorem vbyte_length_le_five (c : Nat) (h : c < 2 ^ 32) : (VByte.encode c).lengt
 followed by an unrelated byte). -/
 example : VByte.decode32 (VByte.encode 16384 ++ [77]) = .ok 16384 (VByte.encode 16384).length :=
   vbyte_roundtrip_32 16384 (by decide) [77]
+
+/-! ### LogSequence (packed integer array) -/
+
+/-- Every position returns the value last stored there, for every field width
+1..64 — including fields that straddle a word boundary — provided the value fits
+the width (the C++ `setField` throws otherwise) and the field lies inside the
+array. -/
+theorem logseq_get_after_set (d d' : List LogSeq.Word) (w idx : Nat) (v : LogSeq.Word)
+    (hw1 : 1 ≤ w) (hw : w ≤ 64) (hb : idx * w + w ≤ 64 * d.length)
+    (hv : ∀ t, w ≤ t → v.getLsbD t = false)
+    (hs : LogSeq.setField d w idx v = some d') : LogSeq.getField d' w idx = some v :=
+  LogSeq.get_set_same d d' w idx v hw1 hw hb hv hs
+
+/-- …without disturbing any neighbour: every other field reads as before. -/
+theorem logseq_set_leaves_others (d d' : List LogSeq.Word) (w idx j : Nat) (v : LogSeq.Word)
+    (hw1 : 1 ≤ w) (hw : w ≤ 64) (hb : idx * w + w ≤ 64 * d.length) (hbj : j * w + w ≤ 64 * d.length)
+    (hv : ∀ t, w ≤ t → v.getLsbD t = false) (hne : idx ≠ j)
+    (hs : LogSeq.setField d w idx v = some d') : LogSeq.getField d' w j = LogSeq.getField d w j :=
+  LogSeq.get_set_other d d' w idx j v hw1 hw hb hbj hv hne hs
+
+/-- A write inside the allocated array always succeeds (no out-of-bounds word). -/
+theorem logseq_set_in_bounds (d : List LogSeq.Word) (w idx : Nat) (v : LogSeq.Word)
+    (hw1 : 1 ≤ w) (hw : w ≤ 64) (hb : idx * w + w ≤ 64 * d.length)
+    (hv : ∀ t, w ≤ t → v.getLsbD t = false) :
+    ∃ d', LogSeq.setField d w idx v = some d' ∧ d'.length = d.length := by
+  obtain ⟨d', h1, h2, _⟩ := LogSeq.setField_spec d w idx v hw1 hw hb hv
+  exact ⟨d', h1, h2⟩
+
+/-- The constructor allocates enough words for every index below `numentries`. -/
+theorem logseq_alloc_enough (w n idx : Nat) (h : idx < n) :
+    idx * w + w ≤ 64 * (LogSeq.mk w n).data.length := by
+  simp only [LogSeq.mk, List.length_replicate]
+  exact LogSeq.numWords_enough w n idx h
+
+/-- The repaired mask and the x86 behaviour of the unrepaired `~(~0 << bitsField)`
+differ exactly at width 64, where the old code computed an empty mask, so that
+`setField` OR-ed into the old value (defect D15, fixed in /repo). -/
+theorem logseq_unfixed_mask_differs : LogSeq.lowMaskX86 64 ≠ LogSeq.lowMask 64 ∧
+    ∀ w, w < 64 → LogSeq.lowMaskX86 w = LogSeq.lowMask w := by
+  constructor
+  · decide
+  · intro w hw
+    simp [LogSeq.lowMaskX86, LogSeq.lowMask, Nat.mod_eq_of_lt hw]
+
+/-- Non-vacuity: a 50-bit field at index 1 straddles words 0 and 1. -/
+example : (1 * 50 + 50 ≤ 64 * (LogSeq.mk 50 2).data.length) ∧ (1 * 50) % 64 + 50 > 64 := by decide
 
 end CSD.Props.C17
